@@ -22,3 +22,12 @@ TECHNIQUE = 'bounded evaluation of the exception-effect contract of compile(); V
 MUSTFAIL = False
 
 FUNCTIONS = FUNCTIONS + ['soupsieve.css_parser.css_unescape.replace@esc', 'soupsieve.css_parser.css_unescape.replace@stresc', 'soupsieve.css_parser.css_unescape']
+
+
+def _progress(ctx):
+    from pyvc import structural
+    res = structural.token_progress(ctx)
+    return [o for o in res if o['id'].startswith('C06')]
+
+
+STRUCTURAL = (globals().get('STRUCTURAL') or []) + [_progress]
